@@ -42,6 +42,8 @@ func Main(cmd string, args []string) int {
 		return ctrlSmokeMain(args)
 	case "writesql":
 		return writesqlMain(args)
+	case "replay":
+		return replayMain(args)
 	case "storeops":
 		return storeopsMain(args)
 	default:
